@@ -489,6 +489,66 @@ def ob_models_one_process(kind):
     return Ob("C06.models_in_one_process[%s]" % kind, "B", body, clause="valid and invertible whatever other tree models exist in the process (bounded)", funcs=FUNCS)
 
 
+_FRACTIONAL_DATES = {
+    "calendar years": [2017.3721, 2015.118, 2010.77, 1999.4, 2017.3699],
+    "calendar years, one tip at the latest date twice": [2021.9183, 2021.9183, 2019.0417, 2020.5521, 2003.33],
+    "ages": [0.0, 2.2541, 6.6021, 17.9721, 0.0022],
+}
+
+
+def _fractional_dates_problems(kind, label):
+    """tips at their sampling times to the resolution the heights are stored with, for dates that are not exactly representable in single
+    precision; under the library's own default dtype (float32: the sampling times are stored in it) and under float64"""
+    from vt.runner import default_dtype
+    bad = []
+    for dt in (torch.float32, torch.float64):
+        with default_dtype(dt):
+            bad += ["default dtype %s: %s" % (str(dt)[6:], b) for b in _fractional_dates_problems_(kind, label)]
+    return bad
+
+
+def _fractional_dates_problems_(kind, label):
+    dates = _FRACTIONAL_DATES[label]
+    tree = (((0, 1), 2), (3, 4))
+    if label == "ages":
+        ages = list(dates)
+    else:
+        ages = [max(dates) - d for d in dates]       # in double precision, as the statement's "sampling time"
+    root = max(ages) + 5.0
+    if kind == "heights":
+        # internal heights of (((0,1),2),(3,4)) in node order
+        hs = torch.tensor([max(ages[0], ages[1]) + 1.0, max(ages[0], ages[1], ages[2]) + 2.0, max(ages[3], ages[4]) + 1.5, root], dtype=torch.float64)
+        tm, _ = treemodels.build_timetree(tree, NAMES[:5], dates, hs)
+    else:
+        x = torch.tensor({"ratios": [0.3, 0.6, 0.45, root], "shifts": [0.4, 0.7, 0.3, 0.9]}[kind], dtype=torch.float64)
+        tm, _ = treemodels.build_reparam(tree, NAMES[:5], dates, x, kind)
+    nh = tm.node_heights
+    bad = []
+    for i, a in enumerate(ages):
+        got = float(nh[..., i])
+        tol = 2.0 ** -23 * max(abs(a), 1e-30)      # one unit of single precision of the age itself
+        if abs(got - a) > tol:
+            bad.append("tip %s sampled at %r sits at height %r, its sampling time is %r before the most recent sample (off by %.3g)" % (NAMES[i], dates[i], got, a, got - a))
+    return bad
+
+
+def ob_fractional_dates(kind, label):
+    def body():
+        bad = _fractional_dates_problems(kind, label)
+        if bad:
+            raise Refuted("%s tree model, %s %s: %s" % (kind, label, _FRACTIONAL_DATES[label], "; ".join(bad[:2])), witness={"kind": kind, "dates": label, "problems": bad},
+                          replay={"kind": "custom", "contract": "C06", "func": "replay_fractional_dates", "args": {"kind": kind, "dates": label}}, confirmed=True)
+        return {"backend": "concrete", "cases": len(_FRACTIONAL_DATES[label]),
+                "statement": "%s, %s: every tip height equals (latest date - date), computed in double precision, to one unit of single precision of that age" % (kind, label)}
+    return Ob("C06.tips.fractional_dates[%s,%s]" % (kind, label), "B", body,
+              clause="every tip sits at its sampling time (dates that single precision cannot represent exactly; storage precision of the age is the tolerance)", funcs=FUNCS)
+
+
+def replay_fractional_dates(args):
+    bad = _fractional_dates_problems(args["kind"], args["dates"])
+    return (False, "; ".join(bad[:3])) if bad else (True, "held")
+
+
 def replay_models_one_process(args):
     try:
         ob_models_one_process(args["kind"]).fn()
@@ -634,6 +694,9 @@ def obligations(tier, seed):
             obs.append(ob_frame(kind, op))
     for op in ("cpu", "to_float64"):
         obs.append(ob_frame_transformed(op))
+    for kind in ("heights", "ratios", "shifts"):
+        for label in _FRACTIONAL_DATES:
+            obs.append(ob_fractional_dates(kind, label))
     for kind in ("ratios", "shifts"):
         obs.append(ob_inplace_update(kind))
         obs.append(ob_topology_edit(kind))
